@@ -67,31 +67,38 @@ def job_inverse():
             results.append(discharge(Obligation('%s: %s(%s(x)) == x and %s(%s(x)) == x for all x > 0' % (impl, a, b, b, a), z3.And(eq_goal(fa(fb(x)), x), eq_goal(fb(fa(x)), x)), facts,
                                                 replay=rp, key='inverse:%s:%s' % (impl, a))))
         o2a, a2o = fns[pre + 'orbital_motion2semi_a'], fns[pre + 'semi_a2orbital_motion']
+        # the compiled functions take the gravitational constant as an argument: a symbol DIFFERENT from the module constant, so that a wrapper which does not forward it is seen
+        Gk = G if impl == 'interpreted' else Q.sym('G_custom')
         if pre == 'cf_':
-            n_ = a2o(x, M, m, G)
-            back = o2a(n_, M, m, G)
-            a_ = o2a(x, M, m, G)
-            back2 = a2o(a_, M, m, G)
+            n_ = a2o(x, M, m, Gk)
+            back = o2a(n_, M, m, Gk)
+            a_ = o2a(x, M, m, Gk)
+            back2 = a2o(a_, M, m, Gk)
         elif impl == 'interpreted':
             n_ = run1(a2o, x, M, m, facts=facts)
             back = run1(o2a, n_, M, m, facts=facts)
             a_ = run1(o2a, x, M, m, facts=facts)
             back2 = run1(a2o, a_, M, m, facts=facts)
         else:
-            n_ = run1(a2o, x, M, m, G, facts=facts)
-            back = run1(o2a, n_, M, m, G, facts=facts)
-            a_ = run1(o2a, x, M, m, G, facts=facts)
-            back2 = run1(a2o, a_, M, m, G, facts=facts)
+            n_ = run1(a2o, x, M, m, Gk, facts=facts + [Gk.re > 0])
+            back = run1(o2a, n_, M, m, Gk, facts=facts + [Gk.re > 0])
+            a_ = run1(o2a, x, M, m, Gk, facts=facts + [Gk.re > 0])
+            back2 = run1(a2o, a_, M, m, Gk, facts=facts + [Gk.re > 0])
 
         def rp2(md, impl=impl):
             xv, Mv, mv = float(md.get('x', 4.2e8)), float(md.get('M', 1.9e27)), float(md.get('m', 8.9e22))
             mod = 'TidalPy.utilities.conversions.conversions' if impl == 'interpreted' else 'TidalPy.utilities.conversions.conversions_x'
-            r = replay.call_real([{'module': mod, 'func': 'semi_a2orbital_motion', 'args': [xv, Mv, mv]}])
-            r2 = replay.call_real([{'module': mod, 'func': 'orbital_motion2semi_a', 'args': [r[0]['value'], Mv, mv]}])
-            return abs(r2[0]['value'] - xv) > 1e-9 * xv, 'a -> n -> a: %r -> %r -> %r' % (xv, r[0]['value'], r2[0]['value'])
-        results.append(discharge(Obligation('%s: Kepler conversions are mutual inverses (a -> n -> a and n -> a -> n) for all masses' % impl, z3.And(eq_goal(back, x), eq_goal(back2, x)), facts,
+            extra = [] if impl == 'interpreted' else [39.47841760435743]      # compiled: a non-default G (4 pi^2: AU, yr, solar-mass units)
+            Gv = 6.6743e-11 if impl == 'interpreted' else extra[0]
+            r = replay.call_real([{'module': mod, 'func': 'semi_a2orbital_motion', 'args': [xv, Mv, mv] + extra}])
+            r2 = replay.call_real([{'module': mod, 'func': 'orbital_motion2semi_a', 'args': [r[0]['value'], Mv, mv] + extra}])
+            if not (r[0]['ok'] and r2[0]['ok']):
+                return True, 'raised: %r %r' % (r[0].get('error'), r2[0].get('error'))
+            k3 = abs(r[0]['value'] ** 2 * xv ** 3 - Gv * (Mv + mv)) / (Gv * (Mv + mv))
+            return abs(r2[0]['value'] - xv) > 1e-9 * xv or k3 > 1e-5, 'a -> n -> a%s: %r -> %r -> %r ; n^2 a^3 / (G (M+m)) - 1 = %.3g' % (' with G = %r' % Gv if extra else '', xv, r[0]['value'], r2[0]['value'], k3)
+        results.append(discharge(Obligation('%s: Kepler conversions are mutual inverses (a -> n -> a and n -> a -> n) for all masses' % impl, z3.And(eq_goal(back, x), eq_goal(back2, x)), facts + [Gk.re > 0],
                                             replay=rp2, key='inverse:%s:kepler' % impl)))
-        results.append(discharge(Obligation('%s: n^2 a^3 == G (M + m) for the returned value' % impl, z3.And(eq_goal(n_ * n_ * x ** 3, G * (M + m)), eq_goal(x * x * a_ ** 3, G * (M + m))), facts,
+        results.append(discharge(Obligation('%s: n^2 a^3 == G (M + m) for the returned value' % impl, z3.And(eq_goal(n_ * n_ * x ** 3, Gk * (M + m)), eq_goal(x * x * a_ ** 3, Gk * (M + m))), facts + [Gk.re > 0],
                                             replay=rp2, key='kepler3:%s' % impl)))
     results.append(reach_twin('inverse', facts))
     return {'results': results, 'encoded': loader.ENCODED, 'axioms': CTX.axiom_notes, 'label': 'inverse'}
@@ -206,7 +213,11 @@ def job_orbit():
             pass
 
     class Orbit:
-        pass
+        def __getattr__(self, name):
+            # the real class exposes read-only properties (orbital_frequencies, semi_major_axes, ...) over the private lists
+            if not name.startswith('_') and ('_' + name) in self.__dict__:
+                return self.__dict__['_' + name]
+            raise AttributeError(name)
     for q, f in fns.items():
         setattr(Orbit, q.split('.')[1], f)
     results = []
